@@ -165,10 +165,14 @@ const LIGS: &[&str] = &["ff", "fi", "fl", "ffi", "ffl", "fff", "ffff", "fif", "f
 const KERNS: &[&str] = &["AV", "AO", "VA", "Vo", "To", "Ta", "yo", "we", "bo", "ov", "Wa", "Ya", "PA", "LT", "ky", "xe", "FA", "AT", "AY", "ow"];
 const ENDS: &[&str] = &[".", ".", ",", ",", ";", ":", "?", "!", ")", "'", "]", ".)", "?'", ".'", "!)", ",'", "A.", "X,", ".]", "):", ";)"];
 
+fn pick_str<'a>(rng: &mut Rng, xs: &[&'a str]) -> &'a str {
+    xs[rng.usize_below(xs.len())]
+}
+
 pub fn word(rng: &mut Rng) -> String {
     let mut w = String::new();
     match rng.below(10) {
-        0..=2 => w.push_str(rng.pick(DICT)),
+        0..=2 => w.push_str(pick_str(rng, DICT)),
         _ => {
             let chunks = rng.range_usize(1, 4);
             for _ in 0..chunks {
@@ -178,14 +182,14 @@ pub fn word(rng: &mut Rng) -> String {
                             w.push((b'a' + rng.below(26) as u8) as char);
                         }
                     }
-                    1 => w.push_str(rng.pick(LIGS)),
-                    2 => w.push_str(rng.pick(KERNS)),
+                    1 => w.push_str(pick_str(rng, LIGS)),
+                    2 => w.push_str(pick_str(rng, KERNS)),
                     3 => w.push((b'A' + rng.below(26) as u8) as char),
                     4 => w.push_str(&rng.below(2000).to_string()),
-                    5 => w.push_str(rng.pick(&["-", "-", "--", "---"])),
-                    6 => w.push_str(rng.pick(&["``", "''", "`", "'", "!`", "?`"])),
+                    5 => w.push_str(pick_str(rng, &["-", "-", "--", "---"])),
+                    6 => w.push_str(pick_str(rng, &["``", "''", "`", "'", "!`", "?`"])),
                     7 => w.push(rng.range_i32(33, 126) as u8 as char),
-                    _ => w.push_str(rng.pick(DICT)),
+                    _ => w.push_str(pick_str(rng, DICT)),
                 }
             }
         }
@@ -202,12 +206,12 @@ pub fn word(rng: &mut Rng) -> String {
         w = w.to_ascii_uppercase();
     }
     if rng.chance(1, 4) {
-        w.push_str(rng.pick(ENDS));
+        w.push_str(pick_str(rng, ENDS));
     }
     if rng.chance(1, 200) {
         // longer than TeX's 63-letter hyphenation buffer
         while w.len() < 70 {
-            w.push_str(rng.pick(DICT));
+            w.push_str(pick_str(rng, DICT));
         }
     }
     w
@@ -233,7 +237,7 @@ pub fn text(rng: &mut Rng, max_words: usize) -> String {
         t.push_str(&word(rng));
     }
     if rng.chance(1, 10) {
-        t.push_str(rng.pick(&[" ", "\n", "  "]));
+        t.push_str(pick_str(rng, &[" ", "\n", "  "]));
     }
     t
 }
@@ -298,7 +302,7 @@ impl ListGen {
     }
 
     fn lig(&mut self, rng: &mut Rng) -> ds::Horizontal {
-        let orig: &str = rng.pick(&["ff", "fi", "ffl", "--"]);
+        let orig: &str = pick_str(rng, &["ff", "fi", "ffl", "--"]);
         ds::Ligature {
             char: *rng.pick(&['\u{b}', '\u{c}', '\u{f}', '{']),
             font: 0,
